@@ -62,7 +62,9 @@ def run_digest(prop, mode, base, idx):
     h.update(repr([(o.get('task'), o.get('idx'), o.get('rec'), o.get('faulted'), o.get('skipped'))
                    for o in res['obs']]).encode())
     h.update(repr(sorted(res.get('faults', {}).items())).encode())
-    return h.hexdigest()
+    # logical digest + fingerprint of the allocator state the run started from / ended in
+    return h.hexdigest() + ':' + hashlib.blake2b(repr(res.get('heap_canary')).encode(),
+                                                 digest_size=4).hexdigest()
 
 
 def digests_cmd(prop, base, spec):
@@ -80,21 +82,44 @@ def determinism_selftest(prop, base, modes, count, jobs_alt=3):
     brand-new interpreter with another PYTHONHASHSEED; all digests must agree."""
     t0 = time.monotonic()
     spec = ','.join('%s:0:%d' % (m, count) for m in modes)
+    rspec = ','.join('%s:%d:1' % (m, i) for m in reversed(modes) for i in reversed(range(count)))
     a = digests_cmd(prop, base, spec)
-    b = digests_cmd(prop, base, spec)
+    b = digests_cmd(prop, base, rspec)          # same runs, requested in the opposite order
     env = dict(os.environ)
     env.pop('VERIF_PINNED', None)
-    env['VERIF_HASHSEED'] = '4242'
     env['VERIF_SEED'] = str(base)
     env['VERIF_JOBS'] = str(jobs_alt)
-    p = subprocess.run([sys.executable, '-B', os.path.join(HERE, 'main.py'), prop.ID,
-                        '--digests', spec], env=env, capture_output=True, text=True, timeout=900)
-    if p.returncode != 0:
-        return {'ok': False, 'error': 'digest subprocess failed: ' + p.stderr[-2000:]}
-    c = json.loads(p.stdout.strip().splitlines()[-1])
-    bad = sorted(k for k in a if not (a[k] == b.get(k) == c.get(k)))
-    return {'ok': not bad, 'runs': len(a), 'executions': 3 * len(a), 'mismatching': bad[:10],
-            'other_hashseed': 4242, 'wall_s': round(time.monotonic() - t0, 2)}
+
+    def fresh(hashseed):
+        e = dict(env)
+        if hashseed is not None:
+            e['VERIF_HASHSEED'] = str(hashseed)
+        else:
+            e.pop('VERIF_HASHSEED', None)
+        p = subprocess.run([sys.executable, '-B', os.path.join(HERE, 'main.py'), prop.ID,
+                            '--digests', spec], env=e, capture_output=True, text=True, timeout=900)
+        if p.returncode != 0:
+            raise RuntimeError('digest subprocess failed: ' + p.stderr[-2000:])
+        return json.loads(p.stdout.strip().splitlines()[-1])
+
+    try:
+        c = fresh(4242)                         # brand-new interpreter, another hash seed
+        d = fresh(None)                         # brand-new interpreter, same hash seed
+    except RuntimeError as e:
+        return {'ok': False, 'error': str(e)}
+
+    def logical(x):
+        return x.split(':')[0] if isinstance(x, str) else x
+
+    bad = sorted(k for k in a if not (logical(a[k]) == logical(b.get(k)) == logical(c.get(k))
+                                      == logical(d.get(k))))
+    heap_same_tree = sum(1 for k in a if a[k] == b.get(k))
+    heap_other_interp = sum(1 for k in a if a[k] == d.get(k))
+    return {'ok': not bad, 'runs': len(a), 'executions': 4 * len(a), 'mismatching': bad[:10],
+            'other_hashseed': 4242,
+            'allocator_fingerprint_equal_when_requested_in_reverse_order': '%d/%d' % (heap_same_tree, len(a)),
+            'allocator_fingerprint_equal_in_brand_new_interpreter': '%d/%d' % (heap_other_interp, len(a)),
+            'wall_s': round(time.monotonic() - t0, 2)}
 
 
 # ------------------------------------------------------------------------------ violations
@@ -105,7 +130,13 @@ def minimise(prop, viol, budget_s):
     refs = prop.make_refs()
     klass = prop.violation_class(viol)
 
+    base_sched = None
+    if viol.get('via') == 'directed' and viol.get('schedule'):
+        base_sched = {'mode': 'replay', 'segments': viol['schedule']}
+
     def check(plan, sched_spec=None):
+        if sched_spec is None:
+            sched_spec = base_sched
         try:
             res = execute_isolated(prop, plan, sched_spec, timeout=120, label='shrink run')
             vs, _ = prop.judge(plan, res, refs)
